@@ -92,31 +92,15 @@ def _check_identical_or_any(incoming_type: type[Any], required_type: type[Any]) 
     )
 
 
-def _all_types_compatible(
-    incoming_args: tuple[Any, ...],
-    required_args: tuple[Any, ...],
-    memo: TypeCheckMemo,
-) -> bool:
-    """Helper function to check if all incoming types are compatible with any required type."""
-    return all(
-        any(is_type_compatible(t1, t2, memo) for t2 in required_args) for t1 in incoming_args
-    )
-
-
 def _handle_union_types(
     incoming_type: type[Any],
     required_type: type[Any],
     memo: TypeCheckMemo,
 ) -> bool | None:
     """Handle compatibility logic for Union types with directional consideration."""
-    if (isinstance(incoming_type, UnionType) or get_origin(incoming_type) is Union) and (
-        isinstance(required_type, UnionType) or get_origin(required_type) is Union
-    ):
-        incoming_type_args = get_args(incoming_type)
-        required_type_args = get_args(required_type)
-        return _all_types_compatible(incoming_type_args, required_type_args, memo)
-
     if isinstance(incoming_type, UnionType) or get_origin(incoming_type) is Union:
+        # Every member has to be accepted by the required type as a whole
+        # (a member may itself be `Annotated[X | Y, ...]`).
         return all(is_type_compatible(t, required_type, memo) for t in get_args(incoming_type))
 
     if isinstance(required_type, UnionType) or get_origin(required_type) is Union:
@@ -223,6 +207,12 @@ def is_type_compatible(
         memo = TypeCheckMemo(globals={}, locals={})
     incoming_type = _resolve_type(incoming_type, memo)
     required_type = _resolve_type(required_type, memo)
+
+    if get_origin(incoming_type) is Annotated:
+        primary_type, *metadata = get_args(incoming_type)
+        if _extract_array_element_type(metadata) is None:
+            # `Annotated[X, ...]` without an array element type has the values of `X`
+            incoming_type = primary_type
 
     if isinstance(incoming_type, TypeVar):
         # TODO: the incoming type needs to be resolved to a concrete type
